@@ -180,7 +180,9 @@ func (qc queueCaller) PipelineRecv(ctx context.Context, transform []capnp.Pipeli
 			path:  clientPathFromTransform(transform),
 			Recv:  r,
 		})
-		basis := len(qc.aq.q) - 1
+		// bases[0] is the original call's answer; the answer of queued
+		// entry i is bases[i+1].
+		basis := len(qc.aq.q)
 		qc.aq.mu.Unlock()
 		return queueCaller{aq: qc.aq, basis: basis}
 	}
